@@ -210,15 +210,70 @@ func FixedSets(r *hk.Rand) []*Set {
 		_ = cc
 		push(b, "content-file", seq(1, 7))
 	}
+	{ // two delete claims on one permanode, and a delete of one of them (the permanode stays deleted)
+		b := &setBuilder{}
+		k := b.key(0)
+		p := b.pn(k, n+8)
+		d1 := b.del(k, p)
+		b.del(k, p)
+		b.del(k, d1)
+		push(b, "two-deleters-one-undone", seq(1, 5))
+	}
+	{ // two delete claims on one attribute claim, the later one deleted again
+		b := &setBuilder{}
+		k := b.key(1)
+		p := b.pn(k, n+9)
+		c := b.claim(k, p, "set", "i1", "s4")
+		b.del(k, c)
+		d2 := b.del(k, c)
+		b.del(k, d2)
+		push(b, "two-deleters-of-claim", seq(1, 6))
+	}
+	{ // three deleters of a permanode, two of them deleted, one of those deletions deleted again
+		b := &setBuilder{}
+		k := b.key(0)
+		p := b.pn(k, n+10)
+		d1 := b.del(k, p)
+		d2 := b.del(k, p)
+		x1 := b.del(k, d1)
+		b.del(k, d2)
+		b.del(k, x1)
+		push(b, "deleters-chain", seq(1, 7))
+	}
+	{ // two permanodes; the creation time of the first comes from its content file, which is newer than
+		// every claim: the file's arrival alone (no claim row) moves the permanode past the other one
+		b := &setBuilder{}
+		k := b.key(0)
+		p1 := b.pn(k, n+11)
+		p2 := b.pn(k, n+12)
+		c1 := b.chunk(n+8, 25)
+		f := b.file(5, 1450000000, b.c(c1))
+		b.claim(k, p1, "set", "o0", fmt.Sprintf("r%d", f))
+		b.claim(k, p2, "set", "i0", "s2")
+		push(b, "late-content-file", seq(1, 7))
+	}
+	{ // the same with an older file (moves the permanode behind the other) and a content change between two files
+		b := &setBuilder{}
+		k := b.key(1)
+		p1 := b.pn(k, n+13)
+		p2 := b.pn(k, n+14)
+		f1 := b.file(1, 500, z(3))
+		f2 := b.file(5, 1460000000, z(4))
+		b.claim(k, p2, "add", "i1", "s3")
+		b.claim(k, p1, "set", "o0", fmt.Sprintf("r%d", f1))
+		b.claim(k, p1, "set", "o0", fmt.Sprintf("r%d", f2))
+		push(b, "content-file-switch", seq(1, 8))
+	}
 	return sets
 }
 
-// randomSet draws a world of n blobs with random kinds and references among the earlier blobs.
+// RandomSet draws a world of n blobs with random kinds and references among the earlier blobs.
 func RandomSet(r *hk.Rand, n int, idx int) *Set {
 	for attempt := 0; ; attempt++ {
 		b := &setBuilder{}
 		salt := r.Intn(50) * 16
 		var keys, pns, claims, dels, chunks, byts, files, ssets, all []int
+		contentOwner := map[int]int{}
 		pick := func(xs []int) int { return xs[r.Intn(len(xs))] }
 		keys = append(keys, b.key(r.Intn(2)))
 		all = append(all, keys[0])
@@ -237,7 +292,20 @@ func RandomSet(r *hk.Rand, n int, idx int) *Set {
 				if r.Chance(40) {
 					val = fmt.Sprintf("r%d", pick(all))
 				}
-				id = b.claim(pick(keys), pick(pns), []string{"set", "add", "del"}[r.Intn(3)], attr, val)
+				pn := pick(pns)
+				if len(files) > 0 && r.Chance(35) {
+					attr, val = "o0", fmt.Sprintf("r%d", pick(files)) // camliContent -> a file
+				}
+				if attr == "o0" && val[0] == 'r' {
+					// one permanode per content blob: equal creation times would be ordered by the real refs
+					t, _ := atoiStrict(val[1:])
+					if owner, used := contentOwner[t]; used && owner != pn {
+						val = "s1"
+					} else {
+						contentOwner[t] = pn
+					}
+				}
+				id = b.claim(pick(keys), pn, []string{"set", "add", "del"}[r.Intn(3)], attr, val)
 				claims = append(claims, id)
 			case k <= 7:
 				var cands []int
@@ -247,7 +315,11 @@ func RandomSet(r *hk.Rand, n int, idx int) *Set {
 				if r.Chance(15) || len(cands) == 0 {
 					cands = all
 				}
-				id = b.del(pick(keys), pick(cands))
+				tgt := pick(cands)
+				if len(dels) > 0 && r.Chance(40) {
+					tgt = b.specs[pick(dels)-1].Target // one more deleter for an already deleted target
+				}
+				id = b.del(pick(keys), tgt)
 				dels = append(dels, id)
 			case k == 8:
 				if r.Chance(20) {
@@ -270,8 +342,11 @@ func RandomSet(r *hk.Rand, n int, idx int) *Set {
 					byts = append(byts, id)
 				} else {
 					mt := int64(0)
-					if r.Chance(40) {
+					if r.Chance(60) {
 						mt = int64(1300000000 + 1000*len(b.specs))
+						if r.Chance(30) {
+							mt = int64(100 + len(b.specs)) // older than every claim
+						}
 					}
 					id = b.file(r.Intn(8), mt, parts...)
 					files = append(files, id)
@@ -306,6 +381,80 @@ func RandomSet(r *hk.Rand, n int, idx int) *Set {
 			panic(err)
 		}
 	}
+}
+
+// Shapes names the set-level shapes the C06 mirrors are sensitive to (histogram keys).
+func (s *Set) Shapes() []string {
+	deleters := map[int][]int{}
+	isDel := map[int]bool{}
+	for _, sp := range s.Specs {
+		if sp.Kind == "del" {
+			deleters[sp.Target] = append(deleters[sp.Target], sp.ID)
+			isDel[sp.ID] = true
+		}
+	}
+	out := map[string]bool{}
+	for t, ds := range deleters {
+		if len(ds) >= 2 {
+			out["shape:multi-deleter-target"] = true
+			for _, d := range ds {
+				if len(deleters[d]) > 0 {
+					out["shape:one-of-several-deleters-deleted"] = true
+				}
+			}
+		}
+		if isDel[t] {
+			out["shape:delete-of-delete"] = true
+		}
+	}
+	for _, sp := range s.Specs {
+		if sp.Kind == "claim" && sp.Attr == "o0" && sp.Val[0] == 'r' {
+			id, _ := atoiStrict(sp.Val[1:])
+			if f := s.W.Specs[id]; f != nil && f.Kind == "file" && f.MTime != 0 {
+				out["shape:content-file-with-time"] = true
+			}
+		}
+	}
+	var ks []string
+	for k := range out {
+		ks = append(ks, k)
+	}
+	sort.Strings(ks)
+	return ks
+}
+
+// lateContentFiles counts the camliContent claims of an arrival order whose timed file arrives later.
+func (s *Set) lateContentFiles(order []int) int {
+	pos := map[int]int{}
+	for i, id := range order {
+		pos[id] = i + 1
+	}
+	n := 0
+	for _, sp := range s.Specs {
+		if sp.Kind != "claim" || sp.Attr != "o0" || sp.Val[0] != 'r' || pos[sp.ID] == 0 {
+			continue
+		}
+		id, _ := atoiStrict(sp.Val[1:])
+		if f := s.W.Specs[id]; f != nil && f.Kind == "file" && f.MTime != 0 && pos[id] > pos[sp.ID] {
+			n++
+		}
+	}
+	return n
+}
+
+// lateDeleters counts the targets of an arrival order that receive a further delete claim while deleted.
+func (s *Set) lateDeleters(order []int) int {
+	seen := map[int]int{}
+	n := 0
+	for _, id := range order {
+		if sp := s.W.Specs[id]; sp != nil && sp.Kind == "del" {
+			if seen[sp.Target] > 0 {
+				n++
+			}
+			seen[sp.Target]++
+		}
+	}
+	return n
 }
 
 // ---- the oracle's own view of the world ----------------------------------------------------------------
@@ -512,6 +661,12 @@ func RunCase(r *hk.Run, s *Set, sc *Schedule, obsEvery bool) caseResult {
 		r.Hit("sched:par")
 		observe("after the concurrent arrivals")
 	} else {
+		if k := s.lateContentFiles(sc.Order); k > 0 {
+			r.Res.Histogram["sched:content-file-arrives-after-its-camliContent-claim"] += k
+		}
+		if k := s.lateDeleters(sc.Order); k > 0 {
+			r.Res.Histogram["sched:second-delete-claim-on-a-target"] += k
+		}
 		for i, id := range sc.Order {
 			if !sc.SrcFirst {
 				op(fmt.Sprintf("src %d", id))
@@ -592,6 +747,9 @@ func Explore(r *hk.Run, s *Set, obs bool, maxPerm int, extra int) {
 		}
 		return "mem"
 	}
+	for _, k := range s.Shapes() {
+		r.Hit(k)
+	}
 	ref := RunCase(r, s, &Schedule{Label: "in-order", Order: s.Deliver, Restart: -1, Steps: true, KV: "mem", Corpus: corpus}, obs)
 	r.Distinct(s.Name + "|" + ref.finalDump)
 	compare := func(label string, got caseResult) {
@@ -648,6 +806,24 @@ func Explore(r *hk.Run, s *Set, obs bool, maxPerm int, extra int) {
 		sc := &Schedule{Label: "srcfirst " + idsTok(o), Order: o, SrcFirst: true, Restart: -1, KV: "mem", Corpus: corpus}
 		compare(sc.Label, RunCase(r, s, sc, obs))
 		r.Hit("sched:source-first")
+	}
+	// content last: every claim is indexed (and the orderings enumerated) before the files they point to
+	{
+		var first, lastIDs []int
+		for _, id := range s.Deliver {
+			switch s.W.Specs[id].Kind {
+			case "file", "opaque", "bytes":
+				lastIDs = append(lastIDs, id)
+			default:
+				first = append(first, id)
+			}
+		}
+		if len(lastIDs) > 0 && len(first) > 0 {
+			o := append(first, lastIDs...)
+			sc := &Schedule{Label: "content-last " + idsTok(o), Order: o, Restart: -1, Steps: true, KV: "mem", Corpus: corpus}
+			compare(sc.Label, RunCase(r, s, sc, obs))
+			r.Hit("sched:content-last")
+		}
 	}
 	// goroutine partitions
 	for j := 0; j < extra; j++ {
